@@ -153,3 +153,164 @@ theorem sound_inv (ρ : QV.Env) (env : Front.Env) (σ : SEnv) (e : PExp) (ih : S
     apply Den.mk_int _ _ _ (bitwiseNot_length bits)
     have := val_bitwiseNot ρ bits
     omega
+
+/-! ### binary operators -/
+
+set_option linter.unusedSimpArgs false
+
+set_option hygiene false in
+/-- common prefix of the `BinOp` cases: both operands translated, both denote -/
+macro "bin_start" : tactic => `(tactic| (
+  intro s t v s' h
+  rw [tr] at h
+  simp only [run_bind_ok] at h
+  obtain ⟨⟨lt, lv⟩, s1, h1, ⟨rt, rv⟩, s2, h2, h3⟩ := h
+  obtain ⟨svl, hsl, hdl⟩ := ihl _ _ _ _ h1
+  obtain ⟨svr, hsr, hdr⟩ := ihr _ _ _ _ h2))
+
+set_option hygiene false in
+/-- discharges the operand-type combinations in which the translator raises -/
+macro "bin_throw" : tactic => `(tactic|
+  (simp only [String.reduceEq, imp_self, not_false_eq_true, run_throw_ok] at h3))
+
+theorem ite_lt_qint (a b : Nat) : (if a < b then Ty.qint b else Ty.qint a) = Ty.qint (max a b) := by
+  split <;> congr 1 <;> omega
+theorem ite_gt_qint (a b : Nat) : (if a > b then Ty.qint a else Ty.qint b) = Ty.qint (max a b) := by
+  split <;> congr 1 <;> omega
+
+theorem sound_add (ρ : QV.Env) (env : Front.Env) (σ : SEnv) (l r : PExp)
+    (ihl : Sound ρ env σ l) (ihr : Sound ρ env σ r) : Sound ρ env σ (.bin "add" l r) := by
+  bin_start
+  cases hdl with
+  | bool a => cases hdr <;> bin_throw
+  | int a =>
+    cases hdr with
+    | bool b => bin_throw
+    | int b =>
+      simp only [String.reduceEq, imp_self, run_bind_ok, run_lift_ok, run_pure_ok, bitsOf_ofBits,
+        Except.ok.injEq] at h3
+      obtain ⟨_, _, ⟨rfl, rfl⟩, _, _, ⟨rfl, rfl⟩, h4, rfl⟩ := h3
+      cases h4
+      refine ⟨.int (max a.length b.length) ((val ρ a + val ρ b) % 2 ^ max a.length b.length),
+        by simp [semW, hsl, hsr, intBin], ?_⟩
+      rw [ite_lt_qint]
+      exact Den.mk_int _ _ _ (qAdd_length a b) (val_qAdd ρ a b)
+
+theorem run_event_ok (e : String) (s : St) (u : Unit) (s1 : St) :
+    (event e).run s = .ok (u, s1) ↔ s1 = { s with events := s.events ++ [e] } := by
+  simp [event, modify, modifyGet, MonadStateOf.modifyGet, StateT.modifyGet, StateT.run, pure, Except.pure,
+    eq_comm]
+
+theorem sound_sub (ρ : QV.Env) (env : Front.Env) (σ : SEnv) (l r : PExp)
+    (ihl : Sound ρ env σ l) (ihr : Sound ρ env σ r) : Sound ρ env σ (.bin "sub" l r) := by
+  bin_start
+  cases hdl with
+  | bool a => cases hdr <;> bin_throw
+  | int a =>
+    cases hdr with
+    | bool b => bin_throw
+    | int b =>
+      simp only [String.reduceEq, imp_self, run_bind_ok, run_lift_ok, bitsOf_ofBits,
+        Except.ok.injEq] at h3
+      obtain ⟨_, _, ⟨rfl, rfl⟩, _, _, ⟨rfl, rfl⟩, h4⟩ := h3
+      have h5 : (t, v) = (if a.length < b.length then Ty.qint b.length else Ty.qint a.length,
+          Val.ofBits (qSub Quirks.none a.length a b)) := by
+        split at h4
+        · simp only [run_bind_ok, run_pure_ok] at h4
+          obtain ⟨_, _, _, h6, _⟩ := h4
+          exact h6
+        · simp only [run_pure_ok] at h4
+          exact h4.1
+      cases h5
+      obtain ⟨hv, hl⟩ := qSub_spec ρ a.length a b
+      have e : max a.length (max a.length b.length) = max a.length b.length := by omega
+      rw [e] at hv hl
+      refine ⟨.int (max a.length b.length)
+        ((val ρ a + 2 ^ max a.length b.length - val ρ b) % 2 ^ max a.length b.length),
+        by simp [semW, hsl, hsr, intBin], ?_⟩
+      rw [ite_lt_qint]
+      exact Den.mk_int _ _ _ hl hv
+
+theorem run_ite_ok {α} (c : Prop) [Decidable c] (x y : M α) (s : St) (r : α × St) :
+    (if c then x else y).run s = .ok r ↔ (c ∧ x.run s = .ok r) ∨ (¬c ∧ y.run s = .ok r) := by
+  split <;> simp [*]
+
+theorem sound_mul (ρ : QV.Env) (env : Front.Env) (σ : SEnv) (l r : PExp)
+    (ihl : Sound ρ env σ l) (ihr : Sound ρ env σ r) : Sound ρ env σ (.bin "mul" l r) := by
+  bin_start
+  cases hdl with
+  | bool a => cases hdr <;> bin_throw
+  | int a =>
+    cases hdr with
+    | bool b => bin_throw
+    | int b =>
+      simp only [String.reduceEq, imp_self, run_bind_ok, run_lift_ok, bitsOf_ofBits,
+        Except.ok.injEq] at h3
+      obtain ⟨_, _, ⟨rfl, rfl⟩, _, _, ⟨rfl, rfl⟩, ⟨cl, cr⟩, s3, _, h4⟩ := h3
+      have h5 : (t, v) = (Ty.qint (qMul Quirks.none cl cr a.length b.length a b).1,
+          Val.ofBits (qMul Quirks.none cl cr a.length b.length a b).2) := by
+        simp only [run_ite_ok, run_bind_ok, run_pure_ok] at h4
+        rcases h4 with ⟨_, (⟨_, _, _, _, h6, _⟩ | ⟨_, h6, _⟩)⟩ | ⟨_, h6, _⟩ <;> exact h6
+      cases h5
+      obtain ⟨hv, hl, ht⟩ := qMul_spec ρ cl cr a.length b.length a b
+      have ht' := ht rfl rfl
+      have e : mulSizing (max a.length b.length) (max a.length b.length)
+          = mulWidth (max a.length b.length + max a.length b.length) := rfl
+      refine ⟨.int (mulWidth (max a.length b.length + max a.length b.length))
+        ((val ρ a * val ρ b) % 2 ^ mulWidth (max a.length b.length + max a.length b.length)),
+        by simp [semW, hsl, hsr, intBin], ?_⟩
+      rw [← e, ← ht']
+      exact Den.mk_int _ _ _ hl hv
+
+theorem litVal_eq_val (ρ : QV.Env) (l : List BExp) (h : isConstBits l = true) : val ρ l = litVal l := by
+  induction l with
+  | nil => rfl
+  | cons a as ih =>
+    simp only [isConstBits, List.all_cons, Bool.and_eq_true] at h
+    have ih' := ih (by simpa [isConstBits] using h.2)
+    rw [val_cons, litVal, ih']
+    cases a <;> simp_all [isLit, BExp.eval, bitN]
+
+theorem isPow2_spec (n : Nat) (h : isPow2 n = true) : ∃ k, n = 2 ^ k := by
+  simp only [isPow2, List.any_eq_true, beq_iff_eq] at h
+  obtain ⟨k, _, hk⟩ := h
+  exact ⟨k, hk⟩
+
+theorem sound_mod (ρ : QV.Env) (env : Front.Env) (σ : SEnv) (l r : PExp)
+    (ihl : Sound ρ env σ l) (ihr : Sound ρ env σ r) : Sound ρ env σ (.bin "mod" l r) := by
+  bin_start
+  cases hdl with
+  | bool a => cases hdr <;> bin_throw
+  | int a =>
+    cases hdr with
+    | bool b => bin_throw
+    | int b =>
+      simp only [String.reduceEq, imp_self, run_bind_ok, run_lift_ok, bitsOf_ofBits,
+        Except.ok.injEq] at h3
+      obtain ⟨_, _, ⟨rfl, rfl⟩, _, _, ⟨rfl, rfl⟩, h4⟩ := h3
+      have hq1 : Quirks.none.modNonPow2 = false := rfl
+      have hq2 : Quirks.none.modVarDivisor = false := rfl
+      simp only [run_ite_ok, run_bind_ok, run_pure_ok, run_throw_ok, hq1, hq2, Bool.not_false,
+        false_and, exists_false, and_false, or_false, not_true_eq_false, Bool.not_eq_true',
+        Bool.not_eq_false] at h4
+      simp only [false_or] at h4
+      obtain ⟨hc, hp, h5, _⟩ := h4
+      cases h5
+      obtain ⟨k, hk⟩ := isPow2_spec _ hp
+      have hvb : val ρ b = 2 ^ k := by rw [litVal_eq_val ρ b hc, hk]
+      have hpos : 0 < b.length := by
+        rcases Nat.eq_zero_or_pos b.length with h0 | h0
+        · have := val_lt ρ b
+          rw [h0, hvb] at this
+          have := Nat.pow_pos (n := k) (by decide : 0 < 2)
+          omega
+        · exact h0
+      obtain ⟨hv, hl⟩ := qMod_spec ρ b.length a b k hpos hvb
+      have e : max a.length (max b.length b.length) = max a.length b.length := by omega
+      rw [e] at hl
+      have hne : val ρ b ≠ 0 := by
+        have := Nat.pow_pos (n := k) (by decide : 0 < 2); omega
+      refine ⟨.int (max a.length b.length) (val ρ a % val ρ b),
+        by simp [semW, hsl, hsr, intBin, hne], ?_⟩
+      rw [ite_gt_qint, hvb]
+      exact Den.mk_int _ _ _ hl hv
